@@ -1511,9 +1511,17 @@ package sftp
 //@ ghost var curID uint32
 
 //@ func (*RequestServer).packetWorker
+//@   loop 1 ghost reqFresh, freshReq
+//@   update after recv pktChan#1: ghost.reqFresh = false
+//@   update after call requestFromPacket#3: ghost.reqFresh = true
+//@   update after call requestFromPacket#3: ghost.freshReq = ret
+//@   assert before call (*Request).close#*: ghost.reqFresh && arg0 == ghost.freshReq
+// (C14 / C11: the worker itself closes only the throw-away Request it built for a path-based command; objects that
+//  belong to an open handle are closed through closeRequest only, i.e. by a CLOSE that went through the barrier, or
+//  by the failed-open cleanup)
 //@   assert before call (*packetManager).readyPacket#1: typeis(arg1.responsePacket, *sshFxVersionPacket) ==> arg1.responsePacket.(*sshFxVersionPacket).Version == 3 && arg1.responsePacket.(*sshFxVersionPacket).Extensions == sftpExtensions
 //@   assert before call (*Request).call#*: arg3 == rs.pktMgr.alloc && arg4 == orderID && arg5 == rs.maxTxPacket
-//@   property C07, C02, C10, C11, C18, C15, C19
+//@   property C07, C02, C10, C11, C18, C15, C19, C14
 //@   requires rsOK(rs) && ctx != nil
 //@   requires MaxFilelist >= 1 && MaxFilelist <= 1000000
 //@   loop 1 invariant rsOK(rs) && MaxFilelist >= 1 && MaxFilelist <= 1000000
@@ -2171,6 +2179,8 @@ package sftp
 //@   modifies nothing
 
 //@ ghost var wfail bool
+//@ ghost var reqFresh bool
+//@ ghost var freshReq *Request
 //@ ghost var kept int
 //@ ghost var lsMode uint32
 //@ ghost var extL0 int
